@@ -47,6 +47,7 @@ type lruCache struct {
 }
 
 type lruEntry struct {
+	key       curve.CompressedEdwardsY
 	publicKey *ed25519.ExpandedPublicKey
 	element   *list.Element
 }
@@ -81,6 +82,7 @@ func (cache *lruCache) Put(publicKey *curve.CompressedEdwardsY, expanded *ed2551
 	}
 
 	entry := &lruEntry{
+		key:       *publicKey,
 		publicKey: expanded,
 	}
 
@@ -90,7 +92,7 @@ func (cache *lruCache) Put(publicKey *curve.CompressedEdwardsY, expanded *ed2551
 		entryValue := cache.list.Remove(element)
 
 		entry := entryValue.(*lruEntry)
-		delete(cache.store, entry.publicKey.CompressedY())
+		delete(cache.store, entry.key)
 	}
 
 	cache.store[*publicKey] = entry
